@@ -227,7 +227,11 @@ Proof.
   assert (Hlast : 0 + zlen (map m_p (rms rs)) =? zlen ps - 1 = true).
   { apply Z.eqb_eq. rewrite Hps. unfold zlen. rewrite app_length. cbn [length]. lia. }
   split.
-  - unfold encode_msg. rewrite EF. cbn [enc_composite]. cbn [estate0 e_bit Z.eqb guard bind].
+  - unfold encode_msg. rewrite EF. cbn [enc_composite].
+    no_own_keys ltac:(intros q Hq; rewrite Hps in Hq; apply in_app_or in Hq as [Hq|[<-|[]]]; [|exact I];
+                      unfold rms in Hq; rewrite map_map in Hq; apply in_map_iff in Hq as (x & <- & Hx);
+                      apply (proj2 (proj2 (Hg x Hx)))).
+    cbn [estate0 e_bit Z.eqb guard bind].
     pose proof (known_members ms ms (incl_refl ms)) as Hkm. fold ps in Hkm. fold kv in Hkm. fold kv. rewrite Hkm. cbn [guard bind].
     match goal with |- bind (bind ?X _) _ = _ =>
       change X with (enc_go (S (S (S (S F)))) kv (zlen ps) true ps 0 s0) end.
